@@ -20,6 +20,7 @@ import (
 	"os"
 	"sort"
 	"strings"
+	"sync/atomic"
 	"testing"
 
 	"github.com/foxcpp/maddy/internal/target/queue"
@@ -44,11 +45,19 @@ type dinfo struct {
 // epochFacts is what the harness' own log says happened in (a prefix of) one
 // queue process life.
 type epochFacts struct {
-	down       []*dinfo
-	delivered  map[pair]int   // latest commit seq of a delivery that delivered (m, r)
-	reported   map[pair]int   // commit seq of the report naming (m, r)
-	startCalls map[string][]int // m -> seqs of Start calls
+	down           []*dinfo
+	delivered      map[pair]int     // latest commit seq of a delivery that delivered (m, r)
+	reported       map[pair]int     // commit seq of the report naming (m, r)
+	startCalls     map[string][]int // m -> seqs of Start calls
+	reports        []reportInfo
 	reportProblems int
+}
+
+type reportInfo struct {
+	seq     int
+	msg     string
+	rcpts   []string
+	problem bool
 }
 
 func analyse(events []mx.Event) *epochFacts {
@@ -97,11 +106,15 @@ func analyse(events []mx.Event) *epochFacts {
 			}
 			if id == "" || len(rp.Rcpts) == 0 {
 				f.reportProblems++
+				f.reports = append(f.reports, reportInfo{seq: d.commitSeq, problem: true})
 				continue
 			}
+			ri := reportInfo{seq: d.commitSeq, msg: id}
 			for _, g := range rp.Rcpts {
 				f.reported[pair{id, g.Addr}] = d.commitSeq
+				ri.rcpts = append(ri.rcpts, g.Addr)
 			}
+			f.reports = append(f.reports, ri)
 		}
 	}
 	return f
@@ -110,54 +123,138 @@ func analyse(events []mx.Event) *epochFacts {
 // facts is the state of the world at a crash point, from the harness' log of
 // all epochs before it.
 type facts struct {
-	stored     map[string]bool // Body had been called: files may exist
-	acked      map[string]bool // Commit into the queue had returned
-	aborted    map[string]bool // Abort had returned
-	delivered  map[pair]bool
-	reported   map[pair]bool
-	constraint map[pair]string // (4): settled in an attempt after which the SAME process began a later attempt
+	stored         map[string]bool // Body had been called: files may exist
+	acked          map[string]bool // Commit into the queue had returned
+	aborted        map[string]bool // Abort had returned
+	delivered      map[pair]bool
+	reported       map[pair]bool
+	constraint     map[pair]string // (4): settled in an attempt after which the SAME process began a later attempt
 	reportProblems int
 }
 
-func computeFacts(hist [][]mx.Event) *facts {
+// fact events of one epoch, in log order
+const (
+	fStored = iota
+	fAcked
+	fAborted
+	fDelivered
+	fReported
+	fStartCall
+	fReportProblem
+)
+
+type factEv struct {
+	seq  int
+	kind int
+	m, r string
+}
+
+// epochIndex is the log of one queue process life with its fact-changing
+// events extracted once (reports parsed once).
+type epochIndex struct {
+	events []mx.Event
+	fev    []factEv
+}
+
+func indexEpoch(events []mx.Event) *epochIndex {
+	ix := &epochIndex{events: events}
+	for _, e := range events {
+		switch e.Kind {
+		case "h.body.call":
+			ix.fev = append(ix.fev, factEv{e.Seq, fStored, e.MsgID, ""})
+		case "h.ack":
+			ix.fev = append(ix.fev, factEv{e.Seq, fAcked, e.MsgID, ""})
+		case "h.abort":
+			ix.fev = append(ix.fev, factEv{e.Seq, fAborted, e.MsgID, ""})
+		}
+	}
+	ef := analyse(events)
+	for m, seqs := range ef.startCalls {
+		for _, s := range seqs {
+			ix.fev = append(ix.fev, factEv{s, fStartCall, m, ""})
+		}
+	}
+	for _, d := range ef.down {
+		if d.sum == nil || d.commitSeq == 0 {
+			continue
+		}
+		for _, r := range d.sum.Accepted {
+			if d.sum.DeliveredTo(r) {
+				ix.fev = append(ix.fev, factEv{d.commitSeq, fDelivered, d.msg, r})
+			}
+		}
+	}
+	for _, rp := range ef.reports {
+		if rp.problem {
+			ix.fev = append(ix.fev, factEv{rp.seq, fReportProblem, "", ""})
+			continue
+		}
+		for _, r := range rp.rcpts {
+			ix.fev = append(ix.fev, factEv{rp.seq, fReported, rp.msg, r})
+		}
+	}
+	sort.SliceStable(ix.fev, func(i, j int) bool { return ix.fev[i].seq < ix.fev[j].seq })
+	return ix
+}
+
+// histPart is the log prefix of one epoch that had happened before its crash.
+type histPart struct {
+	ix  *epochIndex
+	pos int // events with Seq <= pos had happened
+}
+
+func computeFacts(hist []histPart) *facts {
 	f := &facts{stored: map[string]bool{}, acked: map[string]bool{}, aborted: map[string]bool{}, delivered: map[pair]bool{}, reported: map[pair]bool{}, constraint: map[pair]string{}}
-	for _, evs := range hist {
-		for _, e := range evs {
-			switch e.Kind {
-			case "h.body.call":
-				f.stored[e.MsgID] = true
-			case "h.ack":
-				f.acked[e.MsgID] = true
-			case "h.abort":
-				f.aborted[e.MsgID] = true
+	for _, h := range hist {
+		// settled (m, r) of THIS epoch -> how; a later Start call of m in this
+		// epoch turns them into constraints
+		settled := map[pair]string{}
+		for _, fe := range h.ix.fev {
+			if fe.seq > h.pos {
+				break
 			}
-		}
-		ef := analyse(evs)
-		f.reportProblems += ef.reportProblems
-		later := func(m string, seq int) bool {
-			for _, s := range ef.startCalls[m] {
-				if s > seq {
-					return true
+			switch fe.kind {
+			case fStored:
+				f.stored[fe.m] = true
+			case fAcked:
+				f.acked[fe.m] = true
+			case fAborted:
+				f.aborted[fe.m] = true
+			case fDelivered:
+				f.delivered[pair{fe.m, fe.r}] = true
+				settled[pair{fe.m, fe.r}] = "delivered"
+			case fReported:
+				f.reported[pair{fe.m, fe.r}] = true
+				if _, ok := settled[pair{fe.m, fe.r}]; !ok {
+					settled[pair{fe.m, fe.r}] = "reported"
 				}
-			}
-			return false
-		}
-		for p, seq := range ef.delivered {
-			f.delivered[p] = true
-			if later(p.M, seq) {
-				f.constraint[p] = "delivered"
-			}
-		}
-		for p, seq := range ef.reported {
-			f.reported[p] = true
-			if later(p.M, seq) {
-				if _, ok := f.constraint[p]; !ok {
-					f.constraint[p] = "reported"
+			case fReportProblem:
+				f.reportProblems++
+			case fStartCall:
+				for p, how := range settled {
+					if p.M == fe.m {
+						if old, ok := f.constraint[p]; !ok || old == "reported" {
+							f.constraint[p] = how
+						}
+					}
 				}
 			}
 		}
 	}
 	return f
+}
+
+// factPositions lists, for the interval [lo, hi] of log positions of one
+// epoch, one position per distinct set of facts (the facts change only at
+// fact events).
+func factPositions(ix *epochIndex, lo, hi int) []int {
+	out := []int{lo}
+	for _, fe := range ix.fev {
+		if fe.seq > lo && fe.seq <= hi && out[len(out)-1] != fe.seq {
+			out = append(out, fe.seq)
+		}
+	}
+	return out
 }
 
 func keys(m map[string]bool) []string {
@@ -220,6 +317,18 @@ func listing(s map[string][]byte) []string {
 	return out
 }
 
+func histStrings(hist []histPart, last int) []string {
+	if len(hist) == 0 {
+		return nil
+	}
+	h := hist[len(hist)-1]
+	n := 0
+	for n < len(h.ix.events) && h.ix.events[n].Seq <= h.pos {
+		n++
+	}
+	return evStrings(h.ix.events[:n], last)
+}
+
 func evStrings(evs []mx.Event, last int) []string {
 	if last > 0 && len(evs) > last {
 		evs = evs[len(evs)-last:]
@@ -245,13 +354,31 @@ type explorer struct {
 	inconclusive  int
 }
 
-// path describes how a crash state was reached (for witnesses).
+// processTainted: some queue of this process was closed (or abandoned) while
+// work was in flight; from then on a "panic during queue dispatch" line on the
+// global logger cannot be attributed to one run, and Close racing with a
+// retry being scheduled is the TimeWheel defect of C12, not a recovery panic.
+var processTainted atomic.Bool
+
+// path describes how a crash state was reached: the crash points passed and
+// the alternative histories (one per distinct set of facts) that are
+// consistent with them.
 type path struct {
-	hist   [][]mx.Event
+	alts   [][]histPart
 	points []string
 }
 
+type alt struct {
+	hist []histPart
+	f    *facts
+	key  string
+}
+
 func (x *explorer) explore(p path, ep *epoch, depth int) {
+	ix := indexEpoch(ep.Events)
+	if len(p.alts) == 0 {
+		p.alts = [][]histPart{nil}
+	}
 	for i := range ep.Points {
 		cp := &ep.Points[i]
 		x.pointsByDepth[depth]++
@@ -264,16 +391,41 @@ func (x *explorer) explore(p path, ep *epoch, depth int) {
 		case cp.Phase == "mid":
 			x.r.Count("crash_points_mid_write", 1)
 		}
-		hist := append(append([][]mx.Event(nil), p.hist...), ep.Events[:cp.Pos])
-		f := computeFacts(hist)
-		key := snapHash(cp.Snap) + "|" + f.digest()
-		if x.seen[key] {
+		// every consistent cut with this spool state that was not judged yet
+		sh := snapHash(cp.Snap)
+		var todo []alt
+		dig := map[string]bool{}
+		record := depth < x.sc.Depth
+		for _, base := range p.alts {
+			for _, pos := range factPositions(ix, cp.PosLo, cp.Pos) {
+				hist := append(append([]histPart(nil), base...), histPart{ix, pos})
+				f := computeFacts(hist)
+				d := f.digest()
+				if dig[d] {
+					continue
+				}
+				dig[d] = true
+				x.r.Count("crash_cuts_enumerated", 1)
+				// a cut explored with a recorded recovery (crash points inside
+				// it recovered again) needs nothing more; one that was only
+				// judged is run again when it must be recorded
+				key := sh + "|" + d
+				if x.seen["R|"+key] || (!record && x.seen["J|"+key]) {
+					continue
+				}
+				if record {
+					x.seen["R|"+key] = true
+				} else {
+					x.seen["J|"+key] = true
+				}
+				todo = append(todo, alt{hist, f, key})
+			}
+		}
+		if len(todo) == 0 {
 			x.r.Count("crash_points_same_state_as_an_earlier_one", 1)
 			continue
 		}
-		x.seen[key] = true
 		x.statesByDepth[depth]++
-		record := depth < x.sc.Depth
 		flaky := 0
 		if record {
 			flaky = x.sc.FlakyRecovery
@@ -282,8 +434,13 @@ func (x *explorer) explore(p path, ep *epoch, depth int) {
 		rec := runRecovery(x.sc, x.tmp, x.n, cp.Snap, record, flaky)
 		x.r.Count("recoveries_run", 1)
 		x.r.Count(fmt.Sprintf("recoveries_depth%d", depth), 1)
-		np := path{hist: hist, points: append(append([]string(nil), p.points...), cp.String())}
-		x.judge(np, f, cp, rec, depth)
+		np := path{points: append(append([]string(nil), p.points...), cp.String())}
+		x.observe(cp, rec, depth)
+		for _, a := range todo {
+			x.r.Count("crash_cuts_judged", 1)
+			x.judge(np, a.hist, a.f, cp, rec, depth)
+			np.alts = append(np.alts, a.hist)
+		}
 		if record && len(rec.Points) > 0 {
 			x.r.Count("fs_ops_recorded", int64(rec.Ops))
 			x.explore(np, rec, depth+1)
@@ -291,7 +448,32 @@ func (x *explorer) explore(p path, ep *epoch, depth int) {
 	}
 }
 
-func (x *explorer) judge(p path, f *facts, cp *crashPoint, rec *epoch, depth int) {
+// observe counts what one recovery run did (once per run, not per cut).
+func (x *explorer) observe(cp *crashPoint, rec *epoch, depth int) {
+	after := analyse(rec.Events)
+	for _, d := range after.down {
+		x.r.Count("recovery_attempts_observed", 1)
+		for _, r := range d.offered {
+			if d.sum != nil && d.sum.DeliveredTo(r) {
+				x.r.Count("recovered_deliveries", 1)
+			}
+		}
+	}
+	x.r.Count("recovered_reports", int64(len(after.reported)))
+	for name := range rec.Final {
+		if strings.HasSuffix(name, ".header") || strings.HasSuffix(name, ".body") {
+			id := name[:strings.LastIndexByte(name, '.')]
+			if _, ok := rec.Final[id+".meta"]; !ok {
+				x.r.Count("observation_orphan_files_after_recovery", 1)
+				if cp.Kind == "remove" && depth == 1 && cp.MsgID == id {
+					x.r.Count("observation_orphan_files_after_crash_in_removal", 1)
+				}
+			}
+		}
+	}
+}
+
+func (x *explorer) judge(p path, hist []histPart, f *facts, cp *crashPoint, rec *epoch, depth int) {
 	c, sc := x.c, x.sc
 	after := analyse(rec.Events)
 	variant := cp.Variant
@@ -302,7 +484,7 @@ func (x *explorer) judge(p path, f *facts, cp *crashPoint, rec *epoch, depth int
 			"depth":                 depth,
 			"facts_at_crash":        f.witness(),
 			"spool_at_crash":        listing(cp.Snap),
-			"log_before_crash_tail": evStrings(p.hist[len(p.hist)-1], 60),
+			"log_before_crash_tail": histStrings(hist, 60),
 			"recovery_log":          evStrings(rec.Events, 80),
 			"spool_after_recovery":  listing(rec.Final),
 			"recovery_queue_log":    rec.QLog,
@@ -318,7 +500,12 @@ func (x *explorer) judge(p path, f *facts, cp *crashPoint, rec *epoch, depth int
 		c.Violation("recovery-panics/startup/"+variant, fmt.Sprintf("starting a queue on the spool left by a crash at %s panicked: %s", cp, rec.StartPanic), wit(nil))
 		return
 	}
-	if rec.Panics > 0 {
+	if !rec.Quiesced || !rec.Closed {
+		// goroutines of this queue may outlive the run; a panic line seen later
+		// cannot be attributed to a run any more
+		processTainted.Store(true)
+	}
+	if rec.Panics > 0 && !processTainted.Load() {
 		c.Violation("recovery-panics/delivery-goroutine/"+variant, fmt.Sprintf("a delivery goroutine of the recovery queue panicked (crash at %s)", cp), wit(nil))
 	}
 	for name := range rec.Final {
@@ -337,7 +524,6 @@ func (x *explorer) judge(p path, f *facts, cp *crashPoint, rec *epoch, depth int
 	// safety clauses: an observed event decides, quiescence is not needed
 	for _, d := range after.down {
 		m := sc.msg(d.msg)
-		x.r.Count("recovery_attempts_observed", 1)
 		// (3) only stored messages, only their own recipients
 		if m == nil || !f.stored[d.msg] {
 			c.Violation("recovery-delivers-non-pending/unknown-message/"+variant, fmt.Sprintf("recovery started a delivery for message id %q which no client had stored before the crash at %s", d.msg, cp), wit(nil))
@@ -362,9 +548,6 @@ func (x *explorer) judge(p path, f *facts, cp *crashPoint, rec *epoch, depth int
 		for _, r := range d.offered {
 			pr := pair{d.msg, r}
 			delivered := d.sum != nil && d.sum.DeliveredTo(r)
-			if delivered {
-				x.r.Count("recovered_deliveries", 1)
-			}
 			// (2) aborted before the stop: never delivered after restart
 			if f.aborted[d.msg] && delivered {
 				c.Violation("aborted-delivered-after-restart/"+fateNames[m.Fate]+"/"+variant, fmt.Sprintf("message %s was aborted (Abort had returned) before the crash at %s, yet recovery delivered it to %s", d.msg, cp, r), wit(nil))
@@ -389,21 +572,9 @@ func (x *explorer) judge(p path, f *facts, cp *crashPoint, rec *epoch, depth int
 		}
 	}
 	for pr := range after.reported {
-		x.r.Count("recovered_reports", 1)
 		if why, ok := f.constraint[pr]; ok && why == "delivered" {
 			// a report for a delivered recipient is C01's business; counted only
 			x.r.Count("observation_report_after_delivery", 1)
-		}
-	}
-	for name := range rec.Final {
-		if strings.HasSuffix(name, ".header") || strings.HasSuffix(name, ".body") {
-			id := name[:strings.LastIndexByte(name, '.')]
-			if _, ok := rec.Final[id+".meta"]; !ok {
-				x.r.Count("observation_orphan_files_after_recovery", 1)
-				if cp.Kind == "remove" && depth == 1 && cp.MsgID == id {
-					x.r.Count("observation_orphan_files_after_crash_in_removal", 1)
-				}
-			}
 		}
 	}
 	x.r.Count("aborted_messages_checked", int64(len(f.aborted)))
@@ -488,9 +659,9 @@ func TestVerif(t *testing.T) {
 	for _, k := range []string{"recovered_deliveries", "recovered_reports", "acked_recipient_reported_after", "observation_orphan_files_after_crash_in_removal"} {
 		r.Count(k, 0)
 	}
-	r.Set("exhaustive_what", "per recorded execution: every mutating file-system call of the queue (before), every write (middle), each also with not-yet-fsynced data dropped, plus the end state; every resulting crash state is recovered (states identical in spool content and judged facts are recovered once); recursively inside recovery runs to depth 2")
+	r.Set("exhaustive_what", "per recorded execution: every mutating file-system call of the queue (before), every write (middle), each also with not-yet-fsynced data dropped, plus the end state; each spool state is paired with every harness-log prefix it can coexist with (consistent cuts between the surrounding calls); every resulting crash state is restored and recovered by a fresh queue (states identical in spool bytes and judged facts are recovered once); recursively for every crash state inside recovery runs (depth 2)")
 
-	nRandom := r.N(34, 1200)
+	nRandom := r.N(50, 2600)
 	total := nBaseShapes + nRandom
 	for i := 0; i < total; i++ {
 		name := fmt.Sprintf("scenario-%d", i)
@@ -513,6 +684,9 @@ func TestVerif(t *testing.T) {
 				}
 			}
 			ep := runRecording(sc, tmp)
+			if !ep.Quiesced || !ep.Closed {
+				processTainted.Store(true)
+			}
 			if !ep.Quiesced {
 				c.Inconclusive(sc.Name + ": " + ep.Why)
 				c.Done(sc.shape(), false)
